@@ -83,9 +83,9 @@ inline auto it_pos(const It& it) -> decltype(simrt::ptr_pos(it.ptr)) { return si
 struct SimLexer
 {
     template<typename Iterator, typename ErrorStream>
-    constexpr auto match(ctpg::match_options mo, ctpg::source_point sp, Iterator start, Iterator, ErrorStream&)
+    constexpr auto match(ctpg::match_options mo, ctpg::source_point sp, Iterator start, Iterator end, ErrorStream&)
     {
-        simrt::LexAnswer a = simrt::lex(it_pos(start), int(sp.line), int(sp.column), mo.verbose);
+        simrt::LexAnswer a = simrt::lex(it_pos(start), int(sp.line), int(sp.column), mo.verbose, it_pos(end));
         if (a.idx < 0) return ctpg::recognized_term{};
         return ctpg::recognized_term(ctpg::size16_t(a.idx), size_t(a.len));
     }
